@@ -165,8 +165,16 @@ def parse(text):
     return v
 
 
-def parse_dump(path, only=None, skip_if=None):
+def parse_dump(path, only=None, skip_if=None, stride=None):
     """Yield one dict {var: value} per state of a TLC -dump file."""
+    ordinal = [0]
+
+    def wanted(cur):
+        if skip_if and any(skip_if in v for v in cur.values()):
+            return False
+        ordinal[0] += 1
+        return stride is None or (ordinal[0] % stride[0]) == stride[1] % stride[0]
+
     with open(path, "r") as f:
         cur = None
         buf = []
@@ -184,7 +192,7 @@ def parse_dump(path, only=None, skip_if=None):
             if line.startswith("State "):
                 if cur is not None:
                     flush_var()
-                    if not (skip_if and any(skip_if in v for v in cur.values())):
+                    if wanted(cur):
                         yield {k: parse(v) for k, v in cur.items()}
                 cur = {}
                 name = None
@@ -203,7 +211,7 @@ def parse_dump(path, only=None, skip_if=None):
                 buf.append(line)
         if cur is not None:
             flush_var()
-            if cur and not (skip_if and any(skip_if in v for v in cur.values())):
+            if cur and wanted(cur):
                 yield {k: parse(v) for k, v in cur.items()}
 
 
